@@ -16,7 +16,8 @@ def run(ctx, res):
         "enumerated; on such a path the outcome must fork on `c == first character of the delimiter` and, when equal, must "
         "not fall back to the plain base state (Text / InDelimiter).  Necessary for `//* <tag> */` and `<<!-- <tag> -->`.  "
         "R2: an Element token kind is constructed only inside get_state (the end-of-input flush must go through the same transition function).  "
-        "Not decided: delimiters with a proper self-overlap ('aab'), shortest-end matching, at-least-one-body-character.")
+        "R5: the state after a failed partial match must depend on the matched part (needed for delimiters that overlap themselves: "
+        "'// --', '-- //', 'aab'); on the pinned tree it does not - recorded as a known finding.  Not decided: the full equivalence with a textbook search.")
     res.trusted += ["driver fact extraction and the abstract interpreter"]
     b = P.fn("tokenizer::get_state")
     fn = fshort(b)
@@ -81,6 +82,18 @@ def run(ctx, res):
                             "to the base state: %s" % (st, delim, bad[:2]), loc=loc))
         else:
             res.holds("C08.R1", fn, site, "re-dispatched: on `c == first(%s)` -> %s" % (delim, A.show(eq_paths[0]["value"])[:120]))
+        # R5: leftmost / first occurrence for delimiters that overlap themselves ('// --' after '/', '--' + '-- //', 'aab'):
+        # after k matched characters a mismatch must fall back to the longest proper suffix of what was matched that is a
+        # prefix of the delimiter - information that only the matched part can give.  An outcome that is a function of the
+        # current character and the delimiter alone restarts from scratch and misses such occurrences.
+        dep = [o for o in mism if "rest" in A.show(o["value"])]
+        if dep:
+            res.holds("C08.R5", fn, "fallback-in:" + st, "the state after a failed partial match depends on the matched part")
+        else:
+            res.add(Finding("C08.R5", fn, "fallback-in:" + st, "after a failed partial match in state %s the scan restarts knowing only the current character "
+                            "(outcomes %s): an occurrence of %s that overlaps the failed match by two or more characters is missed - the tag is then "
+                            "not recognised at the leftmost start / does not end at the first end delimiter" % (
+                                st, sorted({A.show(o["value"])[:60] for o in mism})[:3], delim), loc=loc))
             res.samples.append({"state": st, "decisions": {k: str(v) for k, v in eq_paths[0]["decisions"].items()}, "outcome": A.show(eq_paths[0]["value"])[:200]})
     res.floor("C08.R1", "mismatch arms analysed", arms, 2)
     from . import c07
